@@ -144,6 +144,16 @@ def check_config(ctx, cfg):
     ctx.prove("pending_w1c", z3.And(*conj), frames=[fp, f0, f1])
     ctx.prove("irq_line", f0.val(mon.src.i) == z3.If((en0 & pe0) != 0, one, zero), frames=[f0])
     ctx.prove("reset_values", z3.And(fr.val(en["elem"].r_data) == 0, fr.val(pe["elem"].r_data) == 0), frames=[fr])
+    # the first cycle after reset: an edge-triggered source compares with "initially low" (C13), so a line that is low from the start
+    # produces no event, whatever its trigger mode; with no write in that cycle pending is exactly the triggers of that cycle
+    fr1 = nl.frame("gr1", prev=fr)
+    conj_r = []
+    for s in srcs:
+        k = emap.index(s)
+        cur = fr.inp(s.i)
+        trg0 = {"level": cur, "rise": cur, "fall": zero}[s.trigger.value]            # previous input = 0
+        conj_r.append(z3.Extract(k, k, fr1.val(pe["elem"].r_data)) == trg0)
+    ctx.prove("reset_values", z3.And(*conj_r), [fr.val(pe["elem"].w_stb) == 0], frames=[fr, fr1])
     ctx.canary("write_zero_clears", z3.Implies(z3.And(pw_stb == 1, pw_data == 0, *[f0.val(s.trg) == 0 for s in srcs]), pe1 == 0))
     _ = fp
 
